@@ -426,10 +426,22 @@ class HTTP1Connection(httputil.HTTPConnection):
                 and self._disconnect_on_finish
             ):
                 headers["Connection"] = "close"
-            # If a 1.0 client asked for keep-alive, add the header.
+            # An HTTP/1.0 response cannot use chunked encoding, so a body
+            # without a Content-Length is delimited by closing the connection.
+            if (
+                self._request_start_line.version == "HTTP/1.0"
+                and self._request_start_line.method != "HEAD"
+                and start_line.code not in (204, 304)
+                and (start_line.code < 100 or start_line.code >= 200)
+                and "Content-Length" not in headers
+            ):
+                self._disconnect_on_finish = True
+            # If a 1.0 client asked for keep-alive, add the header
+            # (unless we already know the connection will be closed).
             if (
                 self._request_start_line.version == "HTTP/1.0"
                 and self._request_headers.get("Connection", "").lower() == "keep-alive"
+                and not self._disconnect_on_finish
             ):
                 headers["Connection"] = "Keep-Alive"
         if self._chunking_output:
